@@ -277,6 +277,13 @@ def main():
                 ck.violation("keys=threshold-below-required-tau", "`%s` (%s, %s): the threshold literal %g is below tau(%g, %g, Cu=%d) = %g" % (sql, pun, prm, tau_lit, e_rec, d_rec, Cu, kj["gaussian_tau"]), dict(sql=sql, tau_literal=tau_lit, required=kj["gaussian_tau"]))
             if kj and sigma_lit is not None and sigma_lit < kj["gaussian_noise"] * (1 - 1e-9):
                 ck.violation("keys=count-noise-below-required-sigma", "`%s` (%s, %s): the count is noised with sigma %g, the recorded (eps, delta) and Cu=%d require %g" % (sql, pun, prm, sigma_lit, Cu, kj["gaussian_noise"]), dict(sql=sql))
+            if kj and sigma_lit is not None and kj["gaussian_noise"] > 0:
+                # the threshold must fit the noise that is actually drawn: tau >= 1 + sigma_applied * Phi^-1((1 - delta)^(1/Cu));
+                # the quantile factor is read off the real kernels: (gaussian_tau - 1) / gaussian_noise
+                factor = (kj["gaussian_tau"] - 1.0) / kj["gaussian_noise"]
+                if tau_lit - 1.0 < sigma_lit * factor * (1 - 1e-9):
+                    ck.violation("keys=threshold-below-tau-for-applied-noise", "`%s` (%s, %s): the count is noised with sigma %g, for which delta=%g and Cu=%d need a threshold of %g; the relation filters at %g" % (
+                        sql, pun, prm, sigma_lit, d_rec, Cu, 1.0 + sigma_lit * factor, tau_lit), dict(sql=sql, sigma_literal=sigma_lit, tau_literal=tau_lit, required_tau=1.0 + sigma_lit * factor))
             if tau_lit < 1.0:
                 ck.violation("keys=threshold-below-one", "`%s` (%s, %s): threshold %g < 1: a key held by a single unit can be released without noise" % (sql, pun, prm, tau_lit), dict(sql=sql))
         for li, lay in enumerate(lays):
